@@ -565,6 +565,10 @@ ptl_nth_front = _rec('ptl_nth_front', PTL, I, PTerm)
 _def(ptl_nth_front, [ptl_, i_], z3.If(PTLs.is_('ptnil', ptl_), PTR.mk('PyPat', P.mk('EVar', z3.IntVal(-1))),
                                       z3.If(i_ == ptl_len(PTLs.get('ptcons', 'pttl', ptl_)), PTLs.get('ptcons', 'pthd', ptl_),
                                             ptl_nth_front(PTLs.get('ptcons', 'pttl', ptl_), i_))))
+# element at index i counted from the BACK of a python list (i = 0: the last element)
+ptl_nth_back = _rec('ptl_nth_back', PTL, I, PTerm)
+_def(ptl_nth_back, [ptl_, i_], z3.If(PTLs.is_('ptnil', ptl_), PTR.mk('PyPat', P.mk('EVar', z3.IntVal(-1))),
+                                     z3.If(i_ == 0, PTLs.get('ptcons', 'pthd', ptl_), ptl_nth_back(PTLs.get('ptcons', 'pttl', ptl_), i_ - 1))))
 tl_has = _rec('tl_has', TL, Term, B)
 _def(tl_has, [tl_, tt_], z3.If(TLs.is_('tnil', tl_), False, z3.Or(TLs.get('tcons', 'thd', tl_) == tt_, tl_has(TLs.get('tcons', 'ttl', tl_), tt_))))
 tl_index = _rec('tl_index', TL, Term, I)
